@@ -257,6 +257,33 @@ func c15Cells(seed int64, thorough, race bool) []c15Cell {
 			}
 		}
 	}
+	// empty images with one non-zero dimension; every (rows, parallelism) pair up to 48 x 70 on
+	// two-pixel-wide images; rows wider than 65 536 and 131 072 pixels (16-bit offsets wrap there)
+	if !race {
+		for hi, h := range c15Helpers {
+			for si, sk := range c15SrcKinds {
+				if sk == "Uniform" {
+					continue
+				}
+				cells = append(cells,
+					c15Cell{Helper: h, Src: sk, W: 0, H: 5, OX: 1, OY: 2, Par: 2 + si%3, Seed: rng.U64()},
+					c15Cell{Helper: h, Src: sk, W: 5, H: 0, OX: 1, OY: 2, Par: 2 + si%3, Seed: rng.U64()},
+					c15Cell{Helper: h, Src: sk, Sub: true, W: 0, H: 3, OX: 2, OY: 2, Par: 7, Seed: rng.U64()})
+				if (si+hi)%3 == 0 || c15HandWritten(h, sk) {
+					cells = append(cells, c15Cell{Helper: h, Src: sk, W: 70001, H: 2, OX: 0, OY: 0, Par: 2, Seed: rng.U64()})
+				}
+				if c15HandWritten(h, sk) && len(sk) > 5 && sk[:5] == "YCbCr" {
+					cells = append(cells, c15Cell{Helper: h, Src: sk, W: 140003, H: 3, OX: 0, OY: 0, Par: 3, Seed: rng.U64()})
+				}
+			}
+			for rows := 1; rows <= 48; rows++ {
+				for par := 1; par <= 70; par++ {
+					sk := []string{"NRGBA", "RGBA", "YCbCr420", "NRGBA64", "RGBA64", "Gray"}[(rows+par)%6]
+					cells = append(cells, c15Cell{Helper: h, Src: sk, W: 2, H: rows, OX: 0, OY: 1, Par: par, Seed: uint64(rows*1000 + par)})
+				}
+			}
+		}
+	}
 	if thorough && !race {
 		for _, h := range c15Helpers {
 			cells = append(cells,
